@@ -20,6 +20,24 @@ for i, (what, note) in {
  "C14": ("apk-tools order per the property's sentence (ref/apk.go)", "Unclaimed where apk-tools 2.12's token machine (transcribed, reproduces compare.txt) disagrees with the sentence."),
 }.items():
     claimed[i] = ("reference-model monitor: real Compare vs " + what + " on generated pools (runtime monitoring)", REFTXT, note, "5/" + i)
+claimed["C02"] = ("online law monitor: Contains vs truth table over the implementation's own Compare, all comparator x separator spellings (runtime monitoring)",
+  "Exploration: for generated bounds/probes every supported comparator, AND-separator and OR-separator spelling is parsed and every Contains result is compared with the truth table on Compare; holds for the cases produced.",
+  "Trusts the static syntax table CmpTable (written from docs, not from behaviour) and the pool generators.", "5/C02")
+claimed["C03"] = ("reference monitor: integer-tuple order and marker direction vs real Compare (runtime monitoring)",
+  "Exploration: generated same-arity numeric tuples over the boundary set and every accepted marker spelling are parsed and compared by the real code; the oracle is integer-tuple comparison and the fixed direction of each marker.",
+  "Trusts the static arity and marker tables; github date-shaped inputs compared only among themselves.", "5/C03")
+claimed["C04"] = ("reference-model monitor: vers.Contains vs union-of-intervals denotation under the scheme's own Compare, all well-formed shapes (runtime monitoring)",
+  "Exploration: every well-formed comparator shape up to k constraints (exhaustive for small k, sampled beyond) is evaluated by the real vers.Contains on generated chains and probes and compared with an independent interval denotation.",
+  "Trusts checks/vers.go (VERS interval reading) and the scheme ecosystem's Compare as order, as the property states.", "5/C04")
+claimed["C16"] = ("metamorphic law monitor over pairs of equivalent VERS spellings (runtime monitoring)",
+  "Exploration: generated base ranges and their permutations / space insertions / duplications / empty-constraint insertions are evaluated by the real vers.Contains on the same probes; any difference in (bool, err==nil) is a violation.",
+  "Only ranges whose constraint versions are pairwise non-equivalent under the scheme's Compare and that are accepted without error are related, as the quantifier states.", "5/C16")
+claimed["C17"] = ("oracle monitor: rule validator + routing discrimination vs real vers.Contains on single-point corruptions (runtime monitoring)",
+  "Exploration: all single-point corruptions of generated valid ranges are classified by an independent validator for the property's rule list; a corrupted input that violates a rule must yield (false, error). Routing is decided on inputs where ecosystems disagree.",
+  "Trusts the rule validator (Appendix C of DESIGN.md) and each ecosystem's NewVersion for version validity.", "5/C17")
+claimed["C05"] = ("reference-model monitor: documented-interval table vs real Contains on boundary-concentrated probes (runtime monitoring)",
+  "Exploration: for every documented (ecosystem, construct, arity) generated bases and boundary probes are evaluated by the real parser and Contains; expected membership comes from an interval table written from upstream documentation and the ecosystem's own Compare.",
+  "Trusts the interval table (DESIGN.md Appendix A) and the unclaimed-zone definitions; Compare is the order.", "5/C05 + Appendix A")
 pending = {}
 props = [json.loads(l) for l in open(os.path.join(V, "properties.jsonl"))]
 checks, na = [], []
